@@ -142,25 +142,40 @@ def reference_main():
     json.dump(out, sys.stdout)
 
 
+def api_energy_fn():
+    import math
+
+    def f(r):
+        return 1.5 * math.exp(-r) + 0.25 * r * r
+    return f
+
+
+def api_build(kind, f):
+    """Python-API pair models around one energy callable f (models 4 and 5 of Session.tla: coarse / default differentiation step)"""
+    from atsim.potentials import Potential
+    from atsim.potentials.pair_tabulation import LAMMPS_PairTabulation, DLPoly_PairTabulation
+    if kind == "coarse":
+        return LAMMPS_PairTabulation([Potential("A", "B", f, h=0.5)], 4.0, 9)
+    if kind == "fine":
+        return LAMMPS_PairTabulation([Potential("A", "B", f)], 4.0, 9)
+    return DLPoly_PairTabulation([Potential("B", "C", f, h=0.01), Potential("A", "A", f)], 4.0, 12)
+
+
+API_KIND = {4: "coarse", 5: "fine"}
+
+
+def api_reference(kind):
+    tab = api_build(kind, api_energy_fn())
+    data = write(tab, "LAMMPS")
+    return dict(sha=hashlib.sha256(data).hexdigest(), cells=None, energies=energies(tab))
+
+
 def api_histories(run):
     """models composed through the Python API that share one energy callable (and differ in the step of the numerical
     derivative, or in the species): every ordering of building / writing / evaluating them must give, for each model, the
     bytes it gives when it is the only thing the process ever built"""
-    import itertools, math
-    from atsim.potentials import Potential
-    from atsim.potentials.pair_tabulation import LAMMPS_PairTabulation, DLPoly_PairTabulation
-
-    def energy_fn():
-        def f(r):
-            return 1.5 * math.exp(-r) + 0.25 * r * r
-        return f
-
-    def build(kind, f):
-        if kind == "coarse":
-            return LAMMPS_PairTabulation([Potential("A", "B", f, h=0.5)], 4.0, 9)
-        if kind == "fine":
-            return LAMMPS_PairTabulation([Potential("A", "B", f)], 4.0, 9)
-        return DLPoly_PairTabulation([Potential("B", "C", f, h=0.01), Potential("A", "A", f)], 4.0, 12)
+    import itertools
+    energy_fn, build = api_energy_fn, api_build
 
     def out(tab):
         b = io.StringIO()
@@ -208,14 +223,22 @@ def _history_chunk(rng):
         hist = _HIST[hidx]
         rnd = random.Random(seed * 1000 + hidx)
         tabs = {}
+        shared = api_energy_fn()          # the component object models 4 and 5 of this history share
         for step, op in enumerate(hist):
-            mid = ids[op["id"] - 1]
-            target = MODELS[mid]["targets"][(hidx + step) % len(MODELS[mid]["targets"])]
-            key = (mid, target)
-            if op["op"] == "build" or key not in tabs:
-                tabs[key] = tabulate(mid, target)
+            if op["id"] in API_KIND:
+                mid, target = op["id"], "LAMMPS"
+                key = (mid, target)
+                if op["op"] == "build" or key not in tabs:
+                    tabs[key] = api_build(API_KIND[mid], shared)
+                ref = _REF["api:" + API_KIND[mid]]
+            else:
+                mid = ids[op["id"] - 1]
+                target = MODELS[mid]["targets"][(hidx + step) % len(MODELS[mid]["targets"])]
+                key = (mid, target)
+                if op["op"] == "build" or key not in tabs:
+                    tabs[key] = tabulate(mid, target)
+                ref = _REF["%d:%s" % key]
             tab = tabs[key]
-            ref = _REF["%d:%s" % key]
             n += 1
             if op["op"] == "write":
                 data = write(tab, target)
@@ -254,11 +277,12 @@ def main(prop, tier, seed):
                 _HIST = tlc.read_ndjson(os.path.join(res.outdir, "histories.ndjson"))
         finally:
             tlc.cleanup(res)
-        for c2 in ("Session_seeds", "Session_stamps"):   # stamps = the current tree checked against the byte-level property (known finding F03)
+        for c2, inv in (("Session_seeds", "OutputIsFunctionOfModel"), ("Session_stamps", "OutputIsFunctionOfModel"), ("Session_memo", "ContentIsFunctionOfModel")):
+            # stamps = the current tree checked against the byte-level property (known finding F03)
             r2 = tlc.run("Session", c2 + ".cfg", timeout=600)
             run.notes[c2 + "_violates"] = r2.violated
-            if r2.violated != "OutputIsFunctionOfModel":
-                run.machinery("anti-vacuity: %s should violate OutputIsFunctionOfModel, TLC says %r" % (c2, r2.violated))
+            if r2.violated != inv:
+                run.machinery("anti-vacuity: %s should violate %s, TLC says %r" % (c2, inv, r2.violated))
         if run.machinery_errors:
             return run.finish()
         # ---- references from fresh processes under different hash seeds
@@ -298,7 +322,9 @@ def main(prop, tier, seed):
                                   "[hash-seed] energies of %s differ between PYTHONHASHSEED=%d and %d" % (key, seeds[0], hs), dict(key=key))
         run.replayed += len(seeds) * len(base)
         # ---- histories within one process, against the references
-        _REF = base
+        _REF = dict(base)
+        for kind in API_KIND.values():
+            _REF["api:" + kind] = api_reference(kind)
         hist = _HIST
         if tier == "quick":
             rnd = random.Random(seed)
@@ -324,7 +350,7 @@ def main(prop, tier, seed):
                 run.distinct(json.dumps(h))
         run.sample(dict(history=hist[len(hist) // 2], models={k: v["targets"] for k, v in MODELS.items()}))
         run.sample(dict(model_1=MODELS[1]["text"]))
-        run.rule = "cases = 4 models x targets, 4 command lines with edits / filters and the 22 shipped potable files (each twice) in fresh processes under 4/8 hash seeds + every history of <= 4 build/write/eval operations over 3 models (TLC) in one process; non-trivial = history of >= 2 operations; distinct by history"
+        run.rule = "cases = 4 models x targets, 4 command lines with edits / filters and the 22 shipped potable files (each twice) in fresh processes under 4/8 hash seeds + every history of <= 4 build/write/eval operations over 5 models (3 potable models, 2 Python-API models sharing one energy callable; TLC) in one process; non-trivial = history of >= 2 operations; distinct by history"
     except tlc.TLCError as e:
         run.machinery(str(e))
     return run.finish()
